@@ -88,6 +88,11 @@ Theorem C03_async_discipline_indep : forall D F c a b c1 c2,
   step Async D F c a = SStep c1 -> step Async D F c b = SStep c2 -> indep Async D c a b.
 Proof. exact async_discipline_indep. Qed.
 
+Theorem C03_sync_discipline_indep : forall D F c a b c1 c2,
+  sync_discipline D F c -> a ≠ b ->
+  step Sync D F c a = SStep c1 -> step Sync D F c b = SStep c2 -> indep Sync D c a b.
+Proof. exact sync_discipline_indep. Qed.
+
 (* determinism under an invariant I: the three premises are the remaining hypotheses *)
 Theorem C03_determinism_partial : forall (md : exec_mode) (D : STypes.tenv) (F : list fundef) (I : config -> Prop),
   (forall c ch c', I c -> step md D F c ch = SStep c' -> I c') ->
@@ -206,6 +211,7 @@ Print Assumptions C03_diamond_sync_rendezvous.
 Print Assumptions C03_diamond_sync_rendezvous_run.
 Print Assumptions C03_error_stable.
 Print Assumptions C03_async_discipline_indep.
+Print Assumptions C03_sync_discipline_indep.
 Print Assumptions C03_determinism_partial.
 Print Assumptions C03_determinism_partial_safe.
 Print Assumptions C03_error_excludes_completion.
